@@ -365,6 +365,17 @@ def canon(t):
             return _fmt_format(x[1][1][1], x[2], x[3])
         if k == "fstr":
             return fmt(*x[1])
+        if k == "boolop" and x[1] == "or" and len(x[2]) > 1 and all(
+                y[0] == "call" and y[1] == ("global", "isinstance") and len(y[2]) == 2 and not y[3] and y[2][0] == x[2][0][2][0] for y in x[2]):
+            types = []
+            for y in x[2]:
+                types.extend(y[2][1][1] if y[2][1][0] == "tuple" else (y[2][1],))
+            return ("call", ("global", "isinstance"), (x[2][0][2][0], ("tuple", tuple(types))), ())      # one test against all the types
+        if k == "cmp" and len(x[1]) == 1 and x[1][0] in ("in", "not in") and x[2][1][0] in ("list", "set") and x[2][1][1] \
+                and all(e[0] == "const" for e in x[2][1][1]):
+            return ("cmp", x[1], (x[2][0], ("tuple", x[2][1][1])))      # membership in a literal: the kind of literal does not matter
+        if k == "call" and x[1][0] == "attr" and x[1][2] == "get" and len(x[2]) == 1 and not x[3] and x[2][0][0] != "starred":
+            return ("call", x[1], (x[2][0], ("const", None)), ())       # d.get(k) is d.get(k, None)
         if k == "call" and x[1] in (("global", "os.fspath"), ("global", "six.text_type"), ("global", "os.fsdecode")) and len(x[2]) == 1 and not x[3]:
             return x[2][0]       # the string form of a path: the identity on the strings the properties speak about
         if k == "call" and x[1] == ("global", "hasattr") and len(x[2]) == 2 and x[2][1] == ("const", "__fspath__"):
@@ -1249,6 +1260,20 @@ class Extractor(object):
                 kind = {ast.ListComp: "list", ast.SetComp: "set", ast.GeneratorExp: "gen"}[type(node)]
             return ("comp", kind, elt, tuple(gens))
         if isinstance(node, ast.Lambda):
+            if self.const_resolver is not None and self.grename is None:
+                # module-level constants inside the lambda: their values (``lambda x: x[_KEY]`` is ``lambda x: x["path"]``)
+                import copy as _copy
+                own = set(a.arg for a in node.args.args + node.args.kwonlyargs) | set(env) | set(self.local_names)
+                ex_ = self
+
+                class Fill(ast.NodeTransformer):
+                    def visit_Name(self_, n):
+                        if isinstance(n.ctx, ast.Load) and n.id not in own:
+                            cv = ex_._simple_const(ex_.const_resolver(n.id))
+                            if cv is not None and cv[0] == "const" and isinstance(cv[1], (str, int, bool, type(None))):
+                                return ast.copy_location(ast.Constant(value=cv[1]), n)
+                        return n
+                node = Fill().visit(_copy.deepcopy(node))
             return ("lambda", ast.unparse(node))
         if isinstance(node, ast.Starred):
             return ("starred", E(node.value))
@@ -1585,9 +1610,71 @@ class Extractor(object):
         pend, self._pending_guards[:] = tuple(g for g in self._pending_guards if g not in guards), []
         return pend
 
+    @classmethod
+    def _fold_collecting_loops(cls, stmts):
+        """``x = []`` directly followed by ``for t in it: [if c:] x.append(e)`` (nothing else in the loop; likewise a set filled with
+        add, a dict filled by ``x[k] = v``) is ``x = [e for t in it if c]``"""
+        out = []
+        i = 0
+        while i < len(stmts):
+            s = stmts[i]
+            nxt = stmts[i + 1] if i + 1 < len(stmts) else None
+            folded = None
+            if isinstance(s, ast.Assign) and len(s.targets) == 1 and isinstance(s.targets[0], ast.Name) and isinstance(nxt, ast.For) \
+                    and not nxt.orelse and len(nxt.body) == 1:
+                name = s.targets[0].id
+                v = s.value
+                kind = None
+                if isinstance(v, ast.List) and not v.elts:
+                    kind = "list"
+                elif isinstance(v, ast.Dict) and not v.keys:
+                    kind = "dict"
+                elif isinstance(v, ast.Call) and isinstance(v.func, ast.Name) and v.func.id in ("list", "set", "dict") and not v.args \
+                        and not v.keywords:
+                    kind = v.func.id
+                inner = nxt.body[0]
+                ifs = []
+                while isinstance(inner, ast.If) and not inner.orelse and len(inner.body) == 1:
+                    ifs.append(inner.test)
+                    inner = inner.body[0]
+                elt = None
+                if kind in ("list", "set") and isinstance(inner, ast.Expr) and isinstance(inner.value, ast.Call) \
+                        and isinstance(inner.value.func, ast.Attribute) and isinstance(inner.value.func.value, ast.Name) \
+                        and inner.value.func.value.id == name and inner.value.func.attr == ("append" if kind == "list" else "add") \
+                        and len(inner.value.args) == 1 and not inner.value.keywords and not isinstance(inner.value.args[0], ast.Starred):
+                    elt = (inner.value.args[0],)
+                elif kind == "dict" and isinstance(inner, ast.Assign) and len(inner.targets) == 1 and isinstance(inner.targets[0], ast.Subscript) \
+                        and isinstance(inner.targets[0].value, ast.Name) and inner.targets[0].value.id == name \
+                        and not isinstance(inner.targets[0].slice, ast.Slice):
+                    elt = (inner.targets[0].slice, inner.value)
+                if elt is not None:
+                    used = set(n.id for part in list(elt) + ifs + [nxt.iter, nxt.target] for n in ast.walk(part) if isinstance(n, ast.Name))
+                    jumps = any(isinstance(n, (ast.Yield, ast.YieldFrom, ast.Await, ast.NamedExpr)) for part in list(elt) + ifs for n in ast.walk(part))
+                    tnames = set(n.id for n in ast.walk(nxt.target) if isinstance(n, ast.Name))
+                    later = set(n.id for st in stmts[i + 2:] for n in ast.walk(st) if isinstance(n, ast.Name) and isinstance(n.ctx, ast.Load))
+                    # (a loop variable read after the loop keeps its last value: not so after a comprehension)
+                    if name not in used and not jumps and not (tnames & later):
+                        gen = ast.comprehension(target=nxt.target, iter=nxt.iter, ifs=ifs, is_async=0)
+                        if kind == "list":
+                            comp = ast.ListComp(elt=elt[0], generators=[gen])
+                        elif kind == "set":
+                            comp = ast.SetComp(elt=elt[0], generators=[gen])
+                        else:
+                            comp = ast.DictComp(key=elt[0], value=elt[1], generators=[gen])
+                        folded = ast.copy_location(ast.Assign(targets=[s.targets[0]], value=ast.copy_location(comp, nxt), type_comment=None), nxt)
+                        ast.fix_missing_locations(folded)
+            if folded is not None:
+                out.append(folded)
+                i += 2
+            else:
+                out.append(s)
+                i += 1
+        return out
+
     def block(self, stmts, env, guards, loops):
         """-> (falls_through: bool, env at the end or None).  ``env`` is mutated/replaced as we go."""
         env = dict(env)
+        stmts = self._fold_collecting_loops(stmts)
         for s in stmts:
             ft, env2, extra_guards = self.stmt(s, env, guards, loops)
             pend, self._pending_guards[:] = tuple(self._pending_guards), []
